@@ -428,11 +428,51 @@ def callback_registration_shape():
     return 'bool', cbool(ok)
 
 
+def export_value_pure():
+    """Parameter.export_value is exactly `return self.datatype.export_value(self.value)`: the exported form is a pure
+    function of the cached value, nothing is stored on the Parameter (no memo a thread without updateLock could
+    write); and no other function of params.py assigns an attribute whose name starts with `_export`"""
+    cls = find_class(parse(PA), 'Parameter')
+    f = find_func(cls, 'export_value')
+    body = _body_after_docstring(f)
+    ok = len(body) == 1 and isinstance(body[0], ast.Return) and body[0].value is not None \
+        and src(body[0].value).replace(' ', '') == 'self.datatype.export_value(self.value)'
+    ok = ok and [a.arg for a in f.args.args] == ['self'] and not f.decorator_list
+    stores = [n for n in walk_type(f, ast.Attribute) if isinstance(n.ctx, (ast.Store, ast.Del))]
+    return 'bool', cbool(ok and not stores)
+
+
+def reply_built_from_cache():
+    """Dispatcher._getParameterValue / _setParameterValue: the last two statements are the call of the wrapped
+    read_ / write_ method and `return pobj.export_value(), {'t': pobj.timestamp} if pobj.timestamp else {}`; nothing
+    in these functions assigns an attribute or a subscript; handle_read / handle_change return the reply made of it"""
+    d = find_class(parse(DI), 'Dispatcher')
+    ok = True
+    for name, call in (('_getParameterValue', "getattr(moduleobj,'read_'+pname)()"),
+                       ('_setParameterValue', "getattr(moduleobj,'write_'+pname)(value)")):
+        f = find_func(d, name)
+        body = _body_after_docstring(f)
+        if len(body) < 2:
+            raise Shape(f'{name}: body too short')
+        ok = ok and isinstance(body[-2], ast.Expr) and src(body[-2]).replace(' ', '') == call
+        ok = ok and isinstance(body[-1], ast.Return) and src(body[-1]).replace(' ', '') == \
+            "return(pobj.export_value(),{'t':pobj.timestamp}ifpobj.timestampelse{})"
+        ok = ok and not [n for n in list(walk_type(f, ast.Attribute)) + list(walk_type(f, ast.Subscript))
+                         if isinstance(n.ctx, (ast.Store, ast.Del))]
+    for name, inner, rep in (('handle_read', '_getParameterValue(modulename,pname)', 'READREPLY'),
+                             ('handle_change', '_setParameterValue(modulename,pname,data)', 'WRITEREPLY')):
+        f = find_func(d, name)
+        body = _body_after_docstring(f)
+        ok = ok and isinstance(body[-1], ast.Return) and src(body[-1]).replace(' ', '') == \
+            f'return({rep},specifier,list(self.{inner}))'
+    return 'bool', cbool(ok)
+
+
 FACTS = [announce_in_updateLock, updateLock_is_rlock_per_module, store_then_notify, notify_only_if_exported,
          changed_includes_readerror, repeated_error_test, omit_test, read_wrapper_routes, write_wrapper_routes,
          assignment_routes, make_update_reads_cache, announce_update_broadcasts, update_unchanged_codes,
          omit_resolution, err_table, error_eq_ignores_methods, activate_registers_first, snapshot_in_updateLock,
-         broadcast_iterates_private_copy, callback_except_class, callback_loop_shape, callback_registration_shape]
+         broadcast_iterates_private_copy, callback_except_class, callback_loop_shape, callback_registration_shape, export_value_pure, reply_built_from_cache]
 
 FINGERPRINTS = {
     'Module.announceUpdate': _announce,
